@@ -290,6 +290,17 @@ func c14RunDoc(c *vfCtx, cs c14Case, d *vfJ, T string, inVal any, opt *c14Opt) {
 			if !replay(fmt.Sprintf("presentation ws=%d order=%d (string) %q", ws, ord, vfClip(p)), p) {
 				return
 			}
+			if ord == 0 {
+				// insignificant white space AROUND the document (leading, trailing blanks, CR LF, blank lines)
+				for _, outer := range []string{" \t" + p + " \n\n", p + "\r\n", "\n\n" + p + "  ", p + "\t"} {
+					if !replay(fmt.Sprintf("presentation ws=%d with surrounding white space %q", ws, vfClip(outer)), outer) {
+						return
+					}
+					if !replay("the same as []byte", []byte(outer)) {
+						return
+					}
+				}
+			}
 			// the caller's []byte: handed to the library twice (it must still hold the document afterwards)
 			buf := []byte(p)
 			if !replay(fmt.Sprintf("presentation ws=%d order=%d ([]byte)", ws, ord), buf) {
